@@ -1184,6 +1184,20 @@ def fam_args(rng, n, dist):
             b.connect(login=(t1, t2))
         else:
             b.connect(login=None)
+        # the refused call comes right after an accepted call of the same kind whose texts have the same lengths (and, in a
+        # caller that reuses its buffers, the same addresses): what was decided for one text says nothing about the next
+        c1, c2 = bytes(120 if c in (10, 13) else c for c in t1), bytes(120 if c in (10, 13) else c for c in t2)
+        twin = (bad1 or bad2) and which != 0 and rng.random() < 0.7 and not (c1 == b"HELP")
+        if twin:
+            dist.add("args:kind-%d:accepted-twin-first" % which)
+            if which == 1:
+                b.login(c1, c2)
+            elif which == 2:
+                b.rename(c1, c2)
+            elif which in (4, 5):
+                b.transfer("D" if which == 4 else "U", c1, payload_segs=[b"p"], chunks=[b"q"])
+            elif which == 6:
+                b.transfer("F", c1, payload_segs=[b"l\r\n"])
         if which == 1:
             if bad1 or bad2:
                 b.add_call(("L", t1, t2), throws=True)
@@ -1199,6 +1213,8 @@ def fam_args(rng, n, dist):
             if verb == b"SITE" and t1 == b"HELP":
                 t1 = b"HELP x"
             if bad1:
+                if twin:
+                    b.simple(verb, c1, 250)
                 b.add_call(("S", verb, t1), throws=True)
             else:
                 b.simple(verb, t1, 250)
